@@ -2557,7 +2557,7 @@ def c03(rep, tier, seed, wd, replay):
                            json.dumps({"config": h["cfg"], "ops": h["ops"][:i + 1], "impl": il[:300], "model": ml_[:300]}), found))
 
 
-DKG_DIFF_OPS = ("cluster", "gen", "gens", "gensp", "holds", "cprepare", "hprepare", "hprepares", "hexecute", "hexecute2", "hcontribute", "hcommit", "habort", "sleep", "ctxdl")
+DKG_DIFF_OPS = ("cluster", "gen", "gens", "gensp", "holds", "cprepare", "hprepare", "hprepares", "hexecute", "hexecute2", "hcontribute", "hcontributev", "hcommit", "habort", "sleep", "ctxdl")
 
 
 def c18(rep, tier, seed, wd, replay):
@@ -3535,8 +3535,8 @@ def c17(rep, tier, seed, wd, replay):
                 for q_ in range(int(f[4])):
                     ll.append("jlife prepare %s %s %s" % (f[1], f[3], "ok" if q_ < nok else "no"))
                     lm.append((ri, i))
-            elif f[0] in ("hprepare", "hexecute", "hcontribute", "hcommit", "habort") and i < len(r_["impl"]):
-                ll.append("jlife %s %s %s %s" % (f[0][1:], f[1], f[3], "ok" if r_["impl"][i].strip() == "ok" else "no"))
+            elif f[0] in ("hprepare", "hexecute", "hcontribute", "hcontributev", "hcommit", "habort") and i < len(r_["impl"]):
+                ll.append("jlife %s %s %s %s" % (f[0][1:].rstrip("v"), f[1], f[3], "ok" if r_["impl"][i].strip() == "ok" else "no"))
                 lm.append((ri, i))
                 rep.dist("life_reply", f[0][1:] + ":" + ("accepted" if r_["impl"][i].strip() == "ok" else "refused"))
     out = run_model(ll)
@@ -3635,8 +3635,8 @@ def generic_replay(rep, pid, tier, seed, wd):
                 jl.append("jlife-reset %s" % f[2])
             elif f[0] == "sleep":
                 jl.append("jlife-sleep %s" % f[1])
-            elif f[0] in ("hprepare", "hexecute", "hcontribute", "hcommit", "habort"):
-                jl.append("jlife %s %s %s %s" % (f[0][1:], f[1], f[3], "ok" if impl[i].strip() == "ok" else "no"))
+            elif f[0] in ("hprepare", "hexecute", "hcontribute", "hcontributev", "hcommit", "habort"):
+                jl.append("jlife %s %s %s %s" % (f[0][1:].rstrip("v"), f[1], f[3], "ok" if impl[i].strip() == "ok" else "no"))
         verdicts = [o.strip() for o in run_model(jl) if o.strip() not in ("ok",)] if jl else []
         for i, l in enumerate(lines):
             f = l.split()
